@@ -75,14 +75,19 @@ class ProtocolHandler:
         try:
             return await handler(message, session_id)
         except Exception as e:
-            logging.error(f"Handler error for {method}: {e}")
+            # str(e) runs the exception's own __str__, which may itself raise
+            try:
+                detail = str(e)
+            except Exception:
+                detail = type(e).__name__
+            logging.error(f"Handler error for {method}: {detail}")
             # Get ID if available (not on notifications)
             msg_id = getattr(message, "id", None)
             if msg_id is None:
                 # Failing notification handler: notifications never get a response
                 return None, None
             return self.create_error_response(
-                msg_id, -32603, f"Internal error: {str(e)}"
+                msg_id, -32603, f"Internal error: {detail}"
             ), None
 
     async def _handle_initialize(
